@@ -137,8 +137,13 @@ pub fn judge_c02(rec: &mut Recorder, c: &HistCase, ex: Exec, _hello: &Value) -> 
         // an unmet call-count expectation legitimately panics at a normal scope exit; restoration
         // is demanded all the same (checked below)
         let unmet = counted.iter().any(|c| c.2 != c.3);
+        if l.munmap_fault_hit {
+            rec.class("a-munmap-of-the-scope-exit-failed");
+        }
         if let Some(p) = &l.drop_panicked {
-            if !(unmet && l.exit == "normal") {
+            // (an implementation may report a trampoline it could not release; restoration is
+            // demanded all the same, below)
+            if !(unmet && l.exit == "normal") && !l.munmap_fault_hit {
                 return rec.fail(&sig("scope-exit-panicked"), format!("lifetime {li} ({}): {p}; case {c:?}", l.exit));
             }
             rec.class("exit/verification-panic-with-fakes-installed");
